@@ -240,8 +240,14 @@ fn judge_elements<T: Elem>(ty: &str, sorted: &[T], order: &[usize], confs: &[(Ki
             s.calls += 3;
             let r_ci = mc::catch(AssertUnwindSafe(|| quantile::ci(c, &data, qv)));
             let r_sorted = mc::catch(AssertUnwindSafe(|| quantile::ci_sorted_unchecked(c, sorted, qv)));
+            // the same data in containers whose iterator gives no size hint (0, None), or an
+            // upper bound only: the iterator protocol allows both, and n is the number of
+            // elements, not a hint
+            let r_nohint = mc::catch(AssertUnwindSafe(|| quantile::ci(c, &Hintless(data.clone(), false), qv)));
+            let r_upper = mc::catch(AssertUnwindSafe(|| quantile::ci(c, &Hintless(data.clone(), true), qv)));
+            s.calls += 2;
             s.outcome(&("elements", ty, kind, idx.is_ok()));
-            for (name, r) in [("ci", &r_ci), ("ci_sorted_unchecked", &r_sorted)] {
+            for (name, r) in [("ci", &r_ci), ("ci_sorted_unchecked", &r_sorted), ("ci(no size hint)", &r_nohint), ("ci(upper size hint only)", &r_upper)] {
                 match r {
                     Ok(r) => {
                         if !same_as_expect(r) {
@@ -279,6 +285,27 @@ fn judge_elements<T: Elem>(ty: &str, sorted: &[T], order: &[usize], confs: &[(Ki
             }
             let _ = eq_res::<T>;
         }
+    }
+}
+
+/// a container whose `&`-iterator reports `(0, None)` (like `flatten`) or `(0, Some(n))`
+/// (like `filter`) as its size hint
+struct Hintless<T>(Vec<T>, bool);
+struct HintlessIter<'a, T>(std::slice::Iter<'a, T>, bool);
+impl<'a, T> Iterator for HintlessIter<'a, T> {
+    type Item = &'a T;
+    fn next(&mut self) -> Option<&'a T> {
+        self.0.next()
+    }
+    fn size_hint(&self) -> (usize, Option<usize>) {
+        (0, if self.1 { Some(self.0.len()) } else { None })
+    }
+}
+impl<'a, T> IntoIterator for &'a Hintless<T> {
+    type Item = &'a T;
+    type IntoIter = HintlessIter<'a, T>;
+    fn into_iter(self) -> HintlessIter<'a, T> {
+        HintlessIter(self.0.iter(), self.1)
     }
 }
 
